@@ -93,19 +93,86 @@ def covering(call):
 
 
 def bitfield(call):
+    """Define fields on a BitField (tags given as str / list / a set object that the caller REUSES on a second
+    bit field when asked), assign values and the layout; report keys, masks and tags of both bit fields and
+    whether any caller-owned tags object changed."""
     from rig.bitfield import BitField
     b = BitField(call["length"])
+    shared = {}                     # caller-owned tag collections, reused across add_field calls
+
+    def tags_arg(t):
+        if isinstance(t, list) and t and t[0] == "set":      # ["set", name, [tags...]]
+            if t[1] not in shared:
+                shared[t[1]] = set(t[2])
+            return shared[t[1]]
+        return t
     res = []
+    # materialise every caller-owned tag set first, so that the snapshot below covers all of them
+    for t in [f[3] for f in call["fields"]] + [f[3] for f in call.get("second") or []] \
+            + [c[4] for c in call.get("children", [])]:
+        tags_arg(t)
+    before = snap(shared)
     try:
         for name, length, start, tags in call["fields"]:
-            b.add_field(name, length=length, start_at=start, tags=tags)
+            b.add_field(name, length=length, start_at=start, tags=tags_arg(tags))
+        second = None
+        if call.get("second"):
+            second = BitField(call["length"])
+            for name, length, start, tags in call["second"]:
+                second.add_field(name, length=length, start_at=start, tags=tags_arg(tags))
+        for parent, value, name, length, tags in call.get("children", []):
+            b(**{parent: value}).add_field(name, length=length, tags=tags_arg(tags))
         vals = {n: v for n, v in call["values"]}
+        for parent, value, name, length, tags in call.get("children", []):
+            if vals.get(parent) == value:
+                vals[name] = 0                  # the child is in scope for this key: it needs a value too
         k = b(**vals)
         b.assign_fields()
-        res = [k.get_value(), k.get_mask(), sorted((n, b.get_location_and_length(n)) for n, _, _, _ in call["fields"])]
+        res = [k.get_value(), k.get_mask(), sorted((n, b.get_location_and_length(n)) for n, _, _, _ in call["fields"]),
+               sorted((n, sorted(b.get_tags(n))) for n, _, _, _ in call["fields"])]
+        if second is not None:
+            second.assign_fields()
+            res.append(sorted((n, sorted(second.get_tags(n))) for n, _, _, _ in call["second"]))
+            res.append(sorted((t, second.get_mask(tag=t)) for n, _, _, tg in call["second"]
+                              for t in sorted(second.get_tags(n))))
+        mutated = ["bitfield.tags"] if snap(shared) != before else []
     except Exception as e:
         res = ["raised", type(e).__name__]
-    return res, []
+        mutated = []
+    return res, mutated
+
+
+def reuse(call):
+    """Object reuse: build the rig objects ONCE, run one mapping chain on them, edit the machine in place, then
+    run a second chain on the SAME objects.  The result of the second chain must equal that of the same chain
+    on freshly built equal objects (the harness runs that as the fresh counterpart)."""
+    from rig.place_and_route import allocate, route
+    from rig.routing_table import routing_tree_to_tables, minimise_tables
+    from rig.links import Links
+    machine, vres, nets, cons, net_keys = pnr_gen.build(call["problem"])
+
+    def run(spec):
+        random.seed(spec["seed"])
+        rnd = random.Random(spec["seed"])
+        out = {}
+        try:
+            pl = placer(spec["placer"])(vres, nets, machine, cons, random=rnd)
+            out["place"] = canon(pl)
+            al = allocate(vres, nets, machine, cons, pl)
+            out["allocate"] = canon(al)
+            rt = route(vres, nets, machine, cons, pl, al, radius=spec.get("radius", 20))
+            out["route"] = [canon(rt[n]) for n in nets]
+            tb = routing_tree_to_tables(rt, net_keys)
+            out["tables"] = canon(dict(tb))
+            out["minimise"] = canon(dict(minimise_tables(tb, spec.get("target"))))
+        except Exception as e:
+            out["raised"] = type(e).__name__
+        return out
+    if call.get("first"):
+        run(call["first"])
+    for x, y, l in call["edit_dead_links"]:
+        machine.dead_links.add((x, y, Links(l)))
+    return run(call["second"]), []
 
 
 class FakeSock(object):
@@ -207,7 +274,7 @@ def boot_call(call):
     return res, (["boot.sv_overrides"] if snap(given) != before else [])
 
 
-KINDS = dict(boot=boot_call, chain=chain, covering=covering, bitfield=bitfield, controller=controller, machine=machine_defaults)
+KINDS = dict(boot=boot_call, reuse=reuse, chain=chain, covering=covering, bitfield=bitfield, controller=controller, machine=machine_defaults)
 
 if __name__ == "__main__":
     import implutil
